@@ -786,11 +786,18 @@ Proof.
   - split; [exact Hp|]. intro Z. cbn [with_state errs errcnt]. rewrite Hc, Z. split; [discriminate|reflexivity].
 Qed.
 
+Lemma col_from_xtcol p : forall b, col_from (xtcol b) p = xtcol (rev p ++ b).
+Proof.
+  induction p as [|c r IH]; intro b; [reflexivity|]. cbn [col_from rev]. rewrite <- app_assoc. cbn [app].
+  rewrite <- IH, xtcol_cons. reflexivity.
+Qed.
+
 Lemma column_of_zip text k : zip text k -> column_of text (after k) = xtcol (before k).
 Proof.
-  intro Z. unfold column_of, xtcol. unfold zip in Z. rewrite <- Z at 1 2. rewrite app_length.
+  intro Z. unfold column_of. unfold zip in Z. rewrite <- Z at 1 2. rewrite app_length.
   replace (length (rev (before k)) + length (after k) - length (after k))%nat with (length (rev (before k))) by lia.
-  rewrite firstn_app, Nat.sub_diag, firstn_all. cbn [firstn]. rewrite app_nil_r, rev_involutive. reflexivity.
+  rewrite firstn_app, Nat.sub_diag, firstn_all. cbn [firstn]. rewrite app_nil_r.
+  change 0 with (xtcol []). rewrite col_from_xtcol, rev_involutive, app_nil_r. reflexivity.
 Qed.
 
 
